@@ -529,6 +529,19 @@ impl WriteBuffer {
     pub fn verif_shard_of(&self, key: &[u8]) -> (usize, usize, usize) {
         (self.get_shard_id(key), self.sharded_buffers.len(), self.worker_channels.len())
     }
+
+    /// H15: per shard (entries in the queue, the counter the coordinator looks at), both read
+    /// under the shard's lock
+    #[cfg(feoxdb_verif)]
+    pub fn verif_shard_backlog(&self) -> Vec<(usize, usize)> {
+        self.sharded_buffers
+            .iter()
+            .map(|shard| {
+                let queue = shard.buffer.lock();
+                (queue.len(), shard.count.load(Ordering::Relaxed))
+            })
+            .collect()
+    }
 }
 
 /// Background worker for processing write buffer flushes
